@@ -29,6 +29,10 @@ class Clause:
 
 REGISTRY = {}
 
+# every property about the algebra quantifies over ANY signature objects, including ones that were inputs of earlier
+# operations: it depends on no operation modifying (or caching state on) its inputs and on results not sharing containers
+FRAME_PROPS = ['C16', 'C08', 'C01', 'C02', 'C03', 'C04', 'C09', 'C10', 'C11', 'C15', 'C19']
+
 
 def clause(unit, name, props, tier, doc='', internal=False):
     c = Clause(unit, name, props, tier, doc, internal)
